@@ -141,6 +141,7 @@ def gen_case(run_seed: int, tier: str) -> dict:
             "sut_line_cost_ms": k.choice([1, 5, 20, 50]),
             "p_switch": k.choice([0.02, 0.1, 0.3]),
             "max_starve": k.choice([10, 40]),
+            "p_stall": k.choice([0.0, 0.002, 0.01]),
         },
         "ops": ops,
         "sched_seed": simkit.derive_seed(run_seed, "sched"),
@@ -159,6 +160,8 @@ def run_case(case: dict) -> dict:
             refs[desc_key(d)] = env.reference(desc_key(d), lambda d=d: build_tc(d))
     clock, sch = env.new_sim(decisions=dec, policy="adversarial", p_switch=kn["p_switch"],
                              max_starve=kn["max_starve"], sut_line_cost_ns=kn["sut_line_cost_ms"] * 1_000_000)
+    sch.p_stall = kn.get("p_stall", 0.0)
+    sch.stall_ns = [int(f * kn["max_timeout"] * 1e9) for f in (0.3, 1.2, 3.0)]
     executor = env.new_executor(kn["max_timeout"], kn["per_stmt"])
     violation = None
     probes = {"timeouts": 0, "abandoned_threads": 0, "abandoned_yields": 0, "stale_tracer_exit": 0,
@@ -253,7 +256,7 @@ def run_case(case: dict) -> dict:
         "digest": sch.hist.digest(),
         "nontrivial": probes["timeouts"] > 0 and probes["late_wakeups"] > 0,
         "probes": probes,
-        "faults": {"timeout_fired": probes["timeouts"], "preemptions": sch.switches,
+        "faults": {"timeout_fired": probes["timeouts"], "preemptions": sch.switches, "thread_stalled": sch.stalls,
                    "abandoned_thread_resumed_in_later_execution": probes["late_wakeups"]},
         "sim_ns": clock.ns,
         "sample": {"knobs": kn, "executed": executed, "switches": sch.switches,
